@@ -11,7 +11,7 @@ ID = "C02"
 LEVEL = "exploration"
 TECHNIQUE = "runtime monitoring: reference-model oracle (exact rationals) on observed get_delta() results"
 RULE = ("every charge pattern over {+,-,0} of length 1..Lmax (quick 11, thorough 13) spelled with random residues of "
-        "each class, plus random sequences of all composition classes up to 400 residues, through the real "
+        "each class, plus random sequences of all composition classes up to 400 residues and a few of 1000-1400 residues sharing both ends, through the real "
         "SequenceParameters(seq).get_delta(); distinct = distinct charge pattern; non-trivial = the pattern has a "
         "charged residue and length >= 5 (otherwise delta is 0 by definition)")
 EXHAUSTIVE = {"quick": False, "thorough": False}
@@ -23,9 +23,10 @@ ASSUMPTIONS = [
     "holds only on the inputs driven; nothing is claimed for inputs not generated",
 ]
 REQUIRED = {"all": ["len_lt5", "len_eq5", "len_eq6", "net_negative", "net_zero", "net_positive", "uncharged",
-                    "random_long"]}
+                    "random_long", "longer_than_1000"]}
 LMAX = {"quick": 11, "thorough": 13}
 NRANDOM = {"quick": 1500, "thorough": 20000}
+NLONG = {"quick": 6, "thorough": 40}
 ANCHORS = ["GKKKKG", "KEEEEK", "EKEKEKEKEKEKEKEKEKEKEKEKEKEKEKEKEKEKEKEKEKEKEKEKEK",
            "EEEEEEEEEEEEEEEEEEEEEEEEEKKKKKKKKKKKKKKKKKKKKKKKKK", "G", "K", "KKKKK", "KKKKKK", "EKGRD"]
 
@@ -37,6 +38,12 @@ def cases(tier, seed):
         for pat in gen.all_patterns(L):
             yield {"k": "pat", "p": M.pat_str(pat)}
     rng = gen.sub_rng(seed, ID, "random")
+    # very long sequences that share their first and last residues but differ inside (process-wide memoisation
+    # keyed on an abbreviated form of the sequence would confuse them)
+    ends = gen.rand_seq(rng, "idp", lo=8, hi=8)
+    for j in range(NLONG[tier]):
+        yield {"k": "seq", "s": ends + gen.rand_seq(rng, rng.choice(["idp", "polyampholyte", "uniform"]),
+                                                     lo=1001, hi=1400) + ends}
     for i in range(NRANDOM[tier]):
         hi = 400 if i % 4 == 0 else 60
         yield {"k": "seq", "s": gen.rand_seq(rng, hi=hi)}
@@ -60,6 +67,8 @@ def judge(case, rep, S):
         rep.cnt("uncharged")
     if L > 60:
         rep.cnt("random_long")
+    if L > 1000:
+        rep.cnt("longer_than_1000")
     if case["k"] == "pat":
         rep.cnt("patterns_len_%02d" % L)
     if p + n > 0 and L >= 5:
